@@ -53,6 +53,48 @@ Section FragProofs.
                (cf_samples f) encs Ee Hfit).
     cbn [rbind]. rewrite fragment_struct_roundtrip by assumption. reflexivity.
   Qed.
+  (* the same two theorems for EncryptFragment with the repaired AddSample: they now also speak about fragments that
+     mix samples with and without protection ranges (on which the pinned text panicked) *)
+  Lemma fragment_roundtrip_r_cenc key iv cb sb start mdat_hdr ids f e constiv :
+    clean_moof (cf_children f) = true -> nr_trafs (cf_children f) = 1%nat ->
+    encrypt_frag_r E D protfunc Cenc key iv cb sb start mdat_hdr ids f = Ok e ->
+    decrypt_frag E D Cenc key constiv cb sb e = Ok (layout start (cf_children f) mdat_hdr, cf_samples f).
+  Proof.
+    intros Hc Hn H. unfold encrypt_frag_r in H.
+    destruct (lenN (pad_iv iv) =? 16) eqn:E16; [|discriminate]. cbn [negb] in H.
+    destruct (encrypt_samples_cenc E protfunc key (pad_iv iv) (cf_samples f)) as [encs| | |] eqn:Ee; try discriminate.
+    cbn [rbind] in H.
+    destruct (saiz_of saiz_empty encs) as [z| | |]; try discriminate. cbn [rbind] in H.
+    destruct (C06SencModel.senc_of_r senc_empty encs) as [s| | |]; try discriminate. cbn [rbind] in H.
+    destruct (senc_entries s 0 (N.to_nat (sn_count s))) as [en| | |]; try discriminate. cbn [rbind] in H.
+    apply Ok_inj' in H. subst e. unfold decrypt_frag. cbn [ef_ivs ef_subs ef_data ef_frag].
+    rewrite (samples_roundtrip_cenc E D protfunc key (pad_iv iv) (cf_samples f) encs cb sb constiv (pad_iv_16 iv E16) Ee).
+    cbn [rbind]. rewrite fragment_struct_roundtrip by assumption. reflexivity.
+  Qed.
+
+  Lemma fragment_roundtrip_r_cbcs key iv cb sb start mdat_hdr ids f e :
+    (forall k b, length (E k b) = 16%nat) ->
+    (forall k b, length (D k b) = 16%nat) ->
+    (forall k b, length b = 16%nat -> D k (E k b) = b) ->
+    key_ok key = true ->
+    (forall s ssps, In s (cf_samples f) -> protfunc s = Ok ssps -> fits s ssps) ->
+    clean_moof (cf_children f) = true -> nr_trafs (cf_children f) = 1%nat ->
+    encrypt_frag_r E D protfunc Cbcs key iv cb sb start mdat_hdr ids f = Ok e ->
+    decrypt_frag E D Cbcs key (pad_iv iv) cb sb e = Ok (layout start (cf_children f) mdat_hdr, cf_samples f).
+  Proof.
+    intros HE HD HDE Hk Hfit Hc Hn H. unfold encrypt_frag_r in H.
+    destruct (lenN (pad_iv iv) =? 16) eqn:E16; [|discriminate]. cbn [negb] in H.
+    destruct (encrypt_samples_cbcs E D protfunc key (pad_iv iv) cb sb (cf_samples f)) as [encs| | |] eqn:Ee;
+      try discriminate.
+    cbn [rbind] in H.
+    destruct (saiz_of saiz_empty encs) as [z| | |]; try discriminate. cbn [rbind] in H.
+    destruct (C06SencModel.senc_of_r senc_empty encs) as [s| | |]; try discriminate. cbn [rbind] in H.
+    destruct (senc_entries s 0 (N.to_nat (sn_count s))) as [en| | |]; try discriminate. cbn [rbind] in H.
+    apply Ok_inj' in H. subst e. unfold decrypt_frag. cbn [ef_ivs ef_subs ef_data ef_frag].
+    rewrite (samples_roundtrip_cbcs E D protfunc key (pad_iv iv) cb sb HE HD HDE Hk (pad_iv_16 iv E16)
+               (cf_samples f) encs Ee Hfit).
+    cbn [rbind]. rewrite fragment_struct_roundtrip by assumption. reflexivity.
+  Qed.
 End FragProofs.
 
 (* ---------------------------------------------------------------- third-party content *)
